@@ -83,6 +83,52 @@ pub fn catch<T>(f: impl FnOnce() -> T) -> Result<T, PanicInfo> {
 }
 
 // ---------------------------------------------------------------------------------------------
+// in-flight journal (crash triage)
+// ---------------------------------------------------------------------------------------------
+//
+// A process abort (allocation failure, `process::abort`, a panic while panicking) kills the
+// harness before it can report. When VERIF_JOURNAL_DIR is set, every worker thread keeps the case
+// it is about to execute in its own file there, in replay-file format; after an abnormal
+// termination the driver script replays each of those files in a fresh process to find the case
+// that kills it. Off (one relaxed load per case) unless the variable is set.
+
+static JOURNAL_DIR: std::sync::OnceLock<Option<std::path::PathBuf>> = std::sync::OnceLock::new();
+static JOURNAL_SLOT: std::sync::atomic::AtomicUsize = std::sync::atomic::AtomicUsize::new(0);
+thread_local! {
+    static JOURNAL_FILE: RefCell<Option<std::fs::File>> = const { RefCell::new(None) };
+}
+
+pub fn journal(property: &str, case: impl FnOnce() -> serde_json::Value) {
+    let dir = match JOURNAL_DIR.get_or_init(|| std::env::var_os("VERIF_JOURNAL_DIR").map(std::path::PathBuf::from)) {
+        Some(d) => d,
+        None => return,
+    };
+    use std::io::{Seek, SeekFrom, Write};
+    JOURNAL_FILE.with(|slot| {
+        let mut slot = slot.borrow_mut();
+        if slot.is_none() {
+            let _ = std::fs::create_dir_all(dir);
+            let n = JOURNAL_SLOT.fetch_add(1, std::sync::atomic::Ordering::Relaxed);
+            *slot = std::fs::File::create(dir.join(format!("inflight_{:03}.json", n))).ok();
+        }
+        if let Some(f) = slot.as_mut() {
+            let profile = if cfg!(debug_assertions) { "checked" } else { "release" };
+            let text = serde_json::json!({
+                "property": property,
+                "subcheck": "in-flight journal",
+                "signature": format!("{}/process abort (the case in flight when the process died)", property),
+                "case": case(),
+                "profile": profile,
+            })
+            .to_string();
+            let _ = f.seek(SeekFrom::Start(0));
+            let _ = f.write_all(text.as_bytes());
+            let _ = f.set_len(text.len() as u64);
+        }
+    });
+}
+
+// ---------------------------------------------------------------------------------------------
 // configuration
 // ---------------------------------------------------------------------------------------------
 
